@@ -460,14 +460,20 @@ void __tsan_on_report(void *report) {
     __tsan_get_report_data(report, &desc, &count, &sc, &mc, &lc, &mtc, &tc, &utc, sleep, 4);
     if (g_poison) return;
     char where[600]; where[0] = 0; size_t wl = 0;
-    bool in_sut = false;
+    // A race on container state is a race between two calls into the library: for BOTH accesses the first frame outside
+    // the sanitizer runtime must be qlibc code. (The harness is not instrumented, but its operator new/delete and libc
+    // calls are intercepted: e.g. the allocation ledger's hash table rehashing inside a wrapped malloc is harness memory
+    // handed from thread to thread under the baton, which ThreadSanitizer cannot know.)
+    int in_sut_count = 0, seen = 0;
     for (int i = 0; i < mc && i < 2; i++) {
-        int tid, size, wr, at; void *addr; void *trace[8] = {0};
-        __tsan_get_report_mop(report, i, &tid, &addr, &size, &wr, &at, trace, 8);
+        int tid, size, wr, at; void *addr; void *trace[12] = {0};
+        __tsan_get_report_mop(report, i, &tid, &addr, &size, &wr, &at, trace, 12);
         char frame[200]; snprintf(frame, sizeof frame, "?");
-        for (int f = 0; f < 8 && trace[f]; f++) {
+        seen++;
+        for (int f = 0; f < 12 && trace[f]; f++) {
             char buf[512]; buf[0] = 0;
             __sanitizer_symbolize_pc(trace[f], "%f@%s", buf, sizeof buf);
+            if (strstr(buf, "libsanitizer") || strstr(buf, "tsan_") || strstr(buf, "sanitizer_common")) continue;   // runtime frames
             if (strstr(buf, "/src/containers/") || strstr(buf, "/src/internal/") || strstr(buf, "/src/utilities/") ||
                 strstr(buf, "/src/extensions/")) {
                 char *at2 = strchr(buf, '@');
@@ -475,14 +481,14 @@ void __tsan_on_report(void *report) {
                 if (at2) *at2 = 0;
                 const char *sl = strrchr(file, '/');
                 snprintf(frame, sizeof frame, "%s:%s", sl ? sl + 1 : file, buf);
-                in_sut = true;
-                break;
+                in_sut_count++;
             }
+            break;      // only the first non-runtime frame decides
         }
         wl += snprintf(where + wl, sizeof where - wl, "%s%s %s", i ? " <-> " : "", wr ? "write" : "read", frame);
         if (wl >= sizeof where) wl = sizeof where - 1;
     }
-    if (!in_sut) return;
+    if (seen == 0 || in_sut_count < seen) return;
     g_races++;
     if (!g_race_buf[0]) snprintf(g_race_buf, sizeof g_race_buf, "%s: %s", desc ? desc : "", where);
 }
